@@ -1,10 +1,41 @@
-"""C15 - bounded stand-in tier (native/b_c15.py through props/_qb.py)."""
+"""C15: policy clause decided on the real AST (exception-safe restore of namespace_manager.default in every parser's parse(),
+closed-world rule for the callee frame) + bounded stand-in for termination / clean rejection (native/b_c15.py)."""
+import sys
 from props import _qb
-LEVEL = 'exploration'
+from vlib.report import VERIF, REPO
+LEVEL = 'other'
 PID = 'C15'
+PARSERS = [('spydrnet/parsers/edif/parser.py', 'EdifParser', 'parse'), ('spydrnet/parsers/verilog/parser.py', 'VerilogParser', 'parse'),
+           ('spydrnet/parsers/eblif/eblif_parser.py', 'EBLIFParser', 'parse')]
+ALLOWED_STORES = {('spydrnet/parsers/edif/parser.py', 'parse'), ('spydrnet/parsers/verilog/parser.py', 'parse'),
+                  ('spydrnet/plugins/namespace_manager/__init__.py', '_load_policies')}
 
 
 def run(rep, tier, seed):
+    sys.path.insert(0, VERIF)
+    from pyvc import flow
+    rep.explanation = ('policy clause ("process-wide settings are what they were before the call", normal and exceptional exits): contract on '
+                       'EdifParser/VerilogParser/EBLIFParser.parse decided by abstract execution of the real AST in which every statement may raise '
+                       '(S obligations), callee frame by a closed-world rule; termination, clean rejection, dangling references, well-formed results: '
+                       'bounded stand-in only (token-level corruption of small files in child processes) -- no termination proof exists')
+    n = 0
+    for rel, cls, fn in PARSERS:
+        for name, ok, detail in flow.check_restore(REPO, rel, cls, fn):
+            n += 1
+            rep.s(name, ok, detail)
+            if not ok:
+                rep.violation(name, '%s: %s' % (name, detail), replay={'kind': 'syntactic', 'obligation': name, 'detail': detail,
+                              'how': 'make %s.%s raise after the policy switch (any rejected input) and read namespace_manager.default' % (cls, fn)})
+    for name, ok, detail in flow.rule_policy_frame(REPO, ALLOWED_STORES):
+        n += 1
+        rep.s(name, ok, detail)
+        if not ok:
+            rep.violation(name, 'closed-world rule violated: %s' % detail, replay={'kind': 'syntactic', 'rule': name, 'detail': detail})
+    if n == 0: rep.error('zero obligations generated for C15')
+    rep.trusted = ['pyvc/flow.py abstract execution (every statement may raise; try/finally and try/except followed exactly)']
+    rep.assumptions = ['attribute stores of constants/locals to namespace_manager.default cannot themselves raise',
+                       'no code outside spydrnet/ (user code, other plugins) switches the policy during a parse',
+                       'termination of the readers is NOT proved; only observed within the bounded tier (5 s per parse, files <= 400 tokens)']
     _qb.run(rep, PID, tier, seed)
 
 
